@@ -43,6 +43,13 @@ func profileByName(name string) Profile {
 		p.Buckets = []string{"b1", "b2"}
 		p.Txs = 18
 		p.ScanHeavy = true
+	case "scanbin":
+		// binary keys: 0xFF and 0x00 bytes at the end of keys and prefixes (carry / successor computations)
+		p.WKV = 1
+		p.Keys = []string{"\x01\xff", "\x01\xffa", "\x01\xff\xff", "\x01\xfe", "\x01\xfez", "\x02", "\xff", "\xff\xff", "\x00", "\x01"}
+		p.Buckets = []string{"b1", "\xff"}
+		p.Txs = 14
+		p.ScanHeavy = true
 	case "frame":
 		// adversarial names: prefixes of each other, empty, bucket+key concatenations that coincide
 		p.WKV, p.WList, p.WSet, p.WZSet = 3, 2, 2, 2
@@ -361,6 +368,18 @@ func suiteFault(seed uint64, n int, work string) {
 			}
 		}
 		cur = a
+		// every other time: a later transaction commits into the same segment before the reopen;
+		// it must survive, and the failed one must stay invisible
+		follow := fired && kind != "sync" && r.Intn(2) == 0
+		if follow {
+			a.run("begin w ?")
+			a.run(fmt.Sprintf("put %s %s %s 0 1700000000", hx([]byte(p.Buckets[0])), hx([]byte("zzfollow")), hx([]byte(fmt.Sprintf("f%d", i)))))
+			if a.run("commit") != "ok" {
+				emit("#SPEC a small transaction after a failed Commit (%s error, partial=%d) does not commit", kind, part)
+			}
+			a.run("rollback")
+			o0 = obsOf(a)
+		}
 		if a.run("close") != "ok" {
 			emit("#SPEC close failed after failed commit")
 		}
@@ -371,7 +390,7 @@ func suiteFault(seed uint64, n int, work string) {
 		}
 		o2 := obsOf(a)
 		if fired && kind != "sync" && !eq(o2, o0) {
-			emit("#SPEC failed Commit (%s error, partial=%d) changed reads after reopen", kind, part)
+			emit("#SPEC failed Commit (%s error, partial=%d, later commit=%v) changed reads after reopen", kind, part, follow)
 		}
 		if fired && kind == "sync" && !eq(o2, o0) && !eq(o2, ob) {
 			emit("#SPEC after a sync error in Commit the transaction is partially visible after reopen")
